@@ -4,7 +4,7 @@
    Status values: STrue / SFalse / SNone = Python True / False / None.  Times are Z ticks. *)
 From Coq Require Import ZArith List Bool.
 From GV Require Import Gen.FactsC19 Model.Health Proofs.C19Proofs Proofs.C19WatchProofs Proofs.C19CheckProofs
-  Proofs.C19Examples.
+  Proofs.C19PollProofs Proofs.C19Examples.
 Import ListNotations.
 Open Scope Z_scope.
 
@@ -260,6 +260,21 @@ Proof. exact r_cancel_partial. Qed.
 Print Assumptions C19_cancel_reaches_caller_partial.
 
 (* ================================================================================================ *)
+(* (3') the poll task behind Watch on a ServiceCheck.  pstep/prun: ANY interleaving of watchers subscribing,
+   unsubscribing (the last one cancels the poll task and stays suspended in `await task`), cancelled poll
+   tasks ending and suspended unsubscribes continuing -- including "the last one leaves, the next one joins"
+   in adjacent loop iterations.  Whoever is subscribed is served by a live, un-cancelled poll task (which
+   calls __check__ every check_ttl: the KCall of part (3)); the assert in __unsubscribe__ never fails. *)
+Theorem C19_poll_alive :
+  forall ops,
+  let s := prun pinit ops in
+  p_err s = false /\
+  ((0 < p_events s)%nat -> exists t, p_poll s = Some t /\ In (t, false) (p_live s)) /\
+  (p_events s = 0%nat -> p_poll s = None).
+Proof. exact poll_alive. Qed.
+Print Assumptions C19_poll_alive.
+
+(* ================================================================================================ *)
 (* (4) the model is instantiated with what the source says now (Gen.FactsC19, regenerated every run) *)
 Theorem C19_source_facts :
   status_chain = [([2], 0); ([1], 1)] /\ status_else = 2 /\
@@ -270,6 +285,7 @@ Theorem C19_source_facts :
   nonbool_is_type_error = true /\ check_failure_value = 0 /\
   check_notifies_on_change = true /\ set_notifies_on_change = true /\
   default_check_ttl = 30 /\ default_check_timeout = 10 /\
-  map snd serving_status_enum = [0; 1; 2; 3].
+  map snd serving_status_enum = [0; 1; 2; 3] /\
+  subscribe_starts_poll_when_none = true /\ poll_cleared_before_await = true.
 Proof. exact source_facts. Qed.
 Print Assumptions C19_source_facts.
